@@ -188,6 +188,12 @@ func workerMain() {
 			}
 			continue
 		}
+		if req.Kind == "nopanic-conc" {
+			b, _ := json.Marshal(workResp{Answer: noPanicInWorkerFor(req.Src, 6*time.Second)})
+			out.Write(append(b, '\n'))
+			out.Flush()
+			continue
+		}
 		if req.Kind == "nopanic" {
 			b, _ := json.Marshal(workResp{Answer: noPanicInWorker(req.Src)})
 			out.Write(append(b, '\n'))
